@@ -72,11 +72,12 @@ def check_doc(doc, acc):
     if st == 'timeout':
         acc.violation(ID, 'dd', case, dict(kind='hang'))
         return
+    cause = 'bracket-in-braces-inside-nested-bracket-pair' if docgen.bracket_under_nested_pair(doc.items) else None
     if st == 'exc':
         e = res
         what = (getattr(e, 'error_type_info', None) or {}).get('what') if isinstance(e, LatexWalkerParseError) else None
         acc.violation(ID, 'dd', case, dict(kind='well-formed-document-rejected', exc=type(e).__name__, what=what,
-                                           frame=exc_frame(e)),
+                                           frame=exc_frame(e), cause=cause),
                       observed=str(e)[:300])
         return
     lw, nodes = res
@@ -88,7 +89,7 @@ def check_doc(doc, acc):
     for e in exp:
         acc.count('top_' + e[0])
     if got != exp:
-        acc.violation(ID, 'dd', case, dict(kind='structure-differs', diff=diff_kind(exp, got), ctx=doc.ctx),
+        acc.violation(ID, 'dd', case, dict(kind='structure-differs', diff=diff_kind(exp, got), ctx=doc.ctx, cause=cause),
                       observed=repr(got)[:800], expected=repr(exp)[:800])
 
 
